@@ -218,6 +218,15 @@ def directed(name, quick):
                 P._step(a='Obs', c=m, what=kind)
             P.act('Apply', m)
             out.append(P.steps)
+            if when == 2 and kind == 'full' and not bare:
+                # ... and the build goes on through the handle that apply_modifiers returned: one more measurement (created
+                # against that handle's registry), unrolled again
+                P2 = PB.Prog()
+                P2.steps = [dict(x) for x in P.steps]
+                P2.n, P2.kids, P2.is_comp = P.n, {k: list(v) for k, v in P.kids.items()}, set(P.is_comp)
+                P2.add(m, PB.M(ql, 'late'))
+                P2.act('Apply', m)
+                out.append(P2.steps)
     if name == 'copyapplied':
         # a block of parallel operations, repeated, unrolled, THEN copied / nested; afterwards the registry duration changes
         for n in (2, 3):
